@@ -11,7 +11,8 @@ resolution through a trial array (`getitem`: `_check_finite`, the count of indic
 `C19_numpy_semantics` — for every accepted item the answer is NumPy's selection on the dense array of *any* sufficiently large truncation
 of the series (the trial array suffices); `C19_evaluated_exactly_selected_once` — the evaluated positions are the selected elements, each
 once, in lexicographic order; `C19_in_bounds` — only in-range elements are ever addressed; `C19_negative_or_infinite_rejected` and
-`C19_wrong_number_rejected` — the IndexError clauses.  The model's `select` is itself compared with NumPy on dense arrays, and `getitem` with
+`C19_wrong_number_rejected` — the IndexError clauses; `C19_request_values`, `C19_item_request_at_most_once` — the two models composed: a request for several
+elements returns the element values position by position and evaluates each selected element at most once, also when the elements depend on each other.  The model's `select` is itself compared with NumPy on dense arrays, and `getitem` with
 `BlockSeries[item]` (result shape, the source of every entry, the evaluated set, error class, views) by `harness/index_corr.py`;
 `harness/machine_corr.py` adds multi-element requests whose elements depend on each other (`box` requests) against the machine model.
 Trusted: NumPy's own indexing as the reference the model's `select` is tested (not proved) against; masking of `zero` entries is compared
@@ -20,6 +21,7 @@ by the harness only.
 import PymaVerif.Proofs.MachineThm
 import PymaVerif.Proofs.MachineOnce
 import PymaVerif.Proofs.IndexBounds
+import PymaVerif.Proofs.MachineMany
 
 namespace Pyma
 namespace Props
@@ -88,6 +90,21 @@ theorem C19_wrong_number_rejected (shape : List Nat) (ninf : Nat) (item : List I
     Index.getitem shape ninf item = .error .index := by
   unfold Index.getitem
   by_cases hc : Index.checkFinite (item.drop shape.length) = true <;> simp [hc, h]
+
+/-! ### the two models composed: a request `series[item]` -/
+
+/-- **C19** a request for several elements returns, position by position, the values of the elements (and leaves a consistent cache) -/
+theorem C19_request_values (S : Sys V) (den : SId → Idx → V) (hc : Consistent S den) (f : Nat) (s : SId) (idxs : List Idx) (w : World V)
+    (hw : Inv den w) (vs : List V) (h : (getMany S f s idxs w).1 = .ok vs) : vs = idxs.map (den s) ∧ Inv den (getMany S f s idxs w).2 :=
+  ⟨(getMany_sound S den hc f s idxs w hw).2 vs h, (getMany_sound S den hc f s idxs w hw).1⟩
+
+/-- **C19** `series[item]`: the elements the item selects (the evaluated positions of the resolution model) are each evaluated at most once — also when the
+elements of the request depend on each other, so that some are evaluated re-entrantly before their turn — and they are looked up without repetition -/
+theorem C19_item_request_at_most_once (S : Sys V) (hdefs : ∀ s i, NoPop (S.defs s i)) (f : Nat) (s : SId) (shape : List Nat) (ninf : Nat)
+    (item : List Index.Ax) (a : Index.Answer) (ha : Index.getitem shape ninf item = .ok a) (v0 v : V)
+    (h : (run S f (manyScript s a.evaluated v0) ⟨[], 0, []⟩).1 = .ok v) :
+    (run S f (manyScript s a.evaluated v0) ⟨[], 0, []⟩).2.log.Nodup ∧ a.evaluated.Nodup :=
+  ⟨request_log_nodup S hdefs f s a.evaluated v0 v h, (C19_evaluated_exactly_selected_once shape ninf item a ha).1⟩
 
 -- non-vacuity: `series[-1, :3:2]`, `series[[0, 1], :, [1, 2]]` (advanced indices apart: their dimension comes first), `series[0, :-1]`
 example : Index.getitem [2] 1 [.int (-1), .slice none (some 3) 2] = .ok ⟨[2], [[1, 0], [1, 2]], [[1, 0], [1, 2]]⟩ := by decide
